@@ -182,6 +182,27 @@ func runC14(c *core.Ctx) error {
 				c.Dist("visit-path")
 			}
 		}
+		// the same under a NodeReifier that shows every loaded block differently from its stored form: whatever the walk
+		// visits through the link system, Get / Focus / stepwise loading reach at the same path (the model has no reifier)
+		if i%4 == 1 && U.Compile == "" && U.Outcome == "ok" && !specHasSubset(spec) && len(g.Order) > 0 {
+			core.NodeReifyHide = true
+			R := core.RunWalk(g, spec, core.WalkCfg{}, false)
+			if R.Outcome == "ok" {
+				for _, v := range R.Visits {
+					caseID := "path.get-reified " + core.PathArg(v.Path) + " " + g.StoreTokens() + " ROOT " + g.Root.Term() + " SEL " + spec.Term()
+					got, err := traversal.Progress{Cfg: c14Cfg(g)}.Get(root, mkPathMixed(v.Path, c.Rand))
+					if err != nil || termOf(got) != v.Node {
+						c.Fail("C14/visit-path-does-not-resolve", core.Replay{Kind: "oracle", Case: caseID, Impl: fmt.Sprint(termOfOrErr(got, err)), Expected: v.Node, Detail: "with a NodeReifier configured: Get(root, visit path) differs from the visited node"})
+					}
+					sw, serr := stepwise(g, root, v.Path)
+					if serr != nil || termOf(sw) != v.Node {
+						c.Fail("C14/stepwise-differs", core.Replay{Kind: "oracle", Case: caseID, Impl: termOfOrErr(sw, serr), Expected: v.Node, Detail: "with a NodeReifier configured"})
+					}
+					c.Dist("visit-path:with-node-reifier")
+				}
+			}
+			core.NodeReifyHide = false
+		}
 		// arbitrary paths
 		for k := 0; k < 6; k++ {
 			var segs []string
